@@ -1,6 +1,8 @@
 import LenaModel.DriverUtil
 import LenaModel.Model.C03
 import LenaModel.Model.C03X
+import LenaModel.Model.C03Zip
+import LenaModel.Model.C03Spec
 /-! Model driver for C03.  Requests (one JSON object per line):
 
   {"op":"run","brs":[B..],"flow":[ints],"bufsizes":[n|null..],"copy_buf":bool}
@@ -23,7 +25,7 @@ import LenaModel.Model.C03X
   O = {"t":"source"|"fcseq"|"frseq"|"seq"} | {"t":"el","caps":"fcqrkib"-subset} | {"t":"tuple","els":["caps"..]}
       caps letters: f fill, c compute, q request, r run, k callable, i fill_into, b _can_break_flow
   V = int | string | [V..];  E = ["call"] | ["fill",x,stopped] | ["compute"] | ["request"] | ["run",[x..]] -/
-open Lean Lena.Drv Lena.C03
+open Lean Lena Lena.Drv Lena.C03
 
 partial def vJson : V → Json
   | .int i => ofInt i
@@ -107,6 +109,15 @@ def runOne {σ : Type} (brs : List (Branch σ V)) (copyBuf : Bool) (flow : List 
   Json.mkObj [("out", ofList vJson (s.run flow)), ("inv", Json.arr inv.toArray),
     ("blocks", ofList (ofList vJson) (blocks bs flow)),
     ("spec_out", ofList vJson (if brs.isEmpty then flow else outputs (s.schedule flow))),
+    ("spec_fold", ofList vJson (if brs.isEmpty then flow else outputs (s.runSpec flow))),
+    ("ptrace", ofList (fun b => ofList evJson (proj b.id tr)) brs),
+    ("pspec", ofList (fun b => ofList evJson (closedForm b (blocks bs flow))) brs),
+    ("pbranch", ofList (fun b => ofList evJson (branchTrace b (blocks bs flow))) brs),
+    ("pout", ofList (fun b => ofList vJson (outputsOf b.id tr)) brs),
+    ("precv", ofList (fun b => ofList vJson (received (proj b.id tr))) brs),
+    ("pempty", if flow.isEmpty then ofList (fun b => ofList evJson (invocationOf b :: outs b.id (resultOf b))) brs
+               else Json.null),
+    ("finaliser", ofList (fun b => evJson (finaliser b)) brs),
     ("assert", Json.bool (tr.any (fun e => match e with | .assertFail => true | _ => false)))]
 
 /-! ### op "runx": exceptions, the objects after the run, consecutive runs, nested Splits run per block -/
@@ -185,8 +196,75 @@ def handleRunX (j : Json) : Json :=
           let sp : Split BState V := { branches := mkHBranches 0 hs, bufsize := bs, copyBuf := cb }
           ofList (ofList vJson) (runsObj sp flows)
         | _, _ => Json.null
-      Json.mkObj [("runs", Json.arr runsJ.toArray), ("obj_runs", objJ)]
+      -- `objAfter`: the objects after the first run, branch by branch (specification side of `runFull_seqs`)
+      let specJ := match plainOnly? osp, bad, flows with
+        | some hs, false, flow :: _ =>
+          ofList (fun b => bstateJson (objAfter b (blocks bs flow)).st) (mkHBranches 0 hs)
+        | _, _, _ => Json.null
+      -- `SplitX.forget` (specification side of `runX_prefix`): the first run with the exceptions forgotten
+      let forgetJ := match flows with
+        | flow :: _ => if brs.isEmpty then ofList vJson flow else ofList vJson (outputs (s.forget.runTrace flow))
+        | [] => Json.null
+      Json.mkObj [("runs", Json.arr runsJ.toArray), ("obj_runs", objJ), ("spec_states", specJ),
+        ("forget_out", forgetJ)]
   | _, _, _, _ => err "bad runx args"
+
+/-! ### op "zipctx": Zip on values with context, `fields`
+
+  {"op":"zipctx","n":n,"zk":k,"fields":null|{"list":k}|{"str":k},"kind":"fc"|"fr",
+   "results":[[{"d":V,"c":D}..]..]}       D = array of slots over the sorted key alphabet (null = absent,
+                                           integer = leaf, array = dictionary); zk = number of the key "zip"
+      -> {"init":{"e":..}} | {"r":[{"data":[V..],"bare":b,"common":D,"zip":[D..]|null}..],"raised":b} -/
+
+partial def toCVal (j : Json) : Option (Val Int) :=
+  match j with
+  | .arr a => (a.toList.mapM toSlot).map Val.dict
+  | _ => (int? j).map Val.leaf
+where toSlot (j : Json) : Option (Option (Val Int)) :=
+  if j.isNull then some none else (toCVal j).map some
+
+def toCDict (j : Json) : Option (Slots Int) :=
+  match toCVal j with
+  | some (.dict l) => some l
+  | _ => none
+
+partial def ofCVal : Val Int → Json
+  | .leaf i => ofInt i
+  | .dict l => Json.arr (l.map (fun | none => Json.null | some v => ofCVal v)).toArray
+
+partial def vOfJson (j : Json) : Option V :=
+  match j with
+  | .arr a => (a.toList.mapM vOfJson).map V.tup
+  | .str s => some (.str s)
+  | _ => (int? j).map V.int
+
+def zitem? (j : Json) : Option (ZItem V Int) :=
+  match vOfJson (getD j "d"), toCDict (getD j "c") with
+  | some d, some c => some { data := d, ctx := c }
+  | _, _ => none
+
+def fieldsArg? (j : Json) : Option FieldsArg :=
+  if j.isNull then some .none else
+  match nat? (getD j "list"), nat? (getD j "str") with
+  | some k, _ => some (.list k)
+  | _, some k => some (.str k)
+  | _, _ => none
+
+def handleZipCtx (j : Json) : Json :=
+  match nat? (getD j "n"), nat? (getD j "zk"), fieldsArg? (getD j "fields"), str? (getD j "kind"),
+      (arr? (getD j "results")).bind (fun a => a.toList.mapM (fun r => (arr? r).bind (fun b => b.toList.mapM zitem?))) with
+  | some n, some zk, some f, some kind, some results =>
+    let o : Obj := if kind == "fr" then .el (caps? "fq") else .el (caps? "fc")
+    match zipInitFields (results.map (fun _ => o)) f with
+    | .error e => Json.mkObj [("init", excJson e)]
+    | .ok (_, arity) =>
+      let r := zipYieldCtx (fun (i : Int) => i != 0) n zk arity results
+      Json.mkObj [("r", ofList (fun (v : ZVal V Int) =>
+          Json.mkObj [("data", ofList vJson v.data), ("bare", Json.bool v.bare),
+            ("common", ofCVal (.dict v.z.common)),
+            ("zip", ofOpt (ofList (fun d => ofCVal (.dict d))) v.z.zip)]) r.1),
+        ("raised", Json.bool r.2)]
+  | _, _, _, _, _ => err "bad zipctx args"
 
 def handle (j : Json) : Json :=
   match str? (getD j "op") with
@@ -202,6 +280,7 @@ def handle (j : Json) : Json :=
       | none => Json.mkObj [("runs", ofList (runOne (mkOuterBranches 0 osp) cb flow) bss)]
     | _, _, _, _ => err "bad run args"
   | some "runx" => handleRunX j
+  | some "zipctx" => handleZipCtx j
   | some "methods" =>
     match brs? j, (arr? (getD j "blocks")).bind (fun a => a.toList.mapM flow?) with
     | some sp, some blocks =>
@@ -219,7 +298,11 @@ def handle (j : Json) : Json :=
           let r := splitFrBlocks brs blocks
           Json.mkObj [("stopped", Json.bool r.2), ("outs", ofList (ofList vJson) r.1)]
         else Json.null
-      Json.mkObj [("methods", methodsJson m), ("call", callJ), ("fc", fcJ), ("fr", frJ)]
+      -- `Accepts b flow` and `filled b flow` (specification side of the common-type theorems)
+      let accJ := ofList (fun b => Json.bool (!(fillBuf b.id b.ops b.st blocks.flatten).2.2)) brs
+      let filledJ := ofList (fun b => bstateJson (filled b blocks.flatten).st) brs
+      Json.mkObj [("methods", methodsJson m), ("call", callJ), ("fc", fcJ), ("fr", frJ),
+        ("accepts", accJ), ("filled", filledJ)]
     | _, _ => err "bad methods args"
   | some "zip" =>
     match brs? j, flow? (getD j "flow") with
@@ -233,7 +316,16 @@ def handle (j : Json) : Json :=
         let res := match t with
           | .fillCompute => zipCompute r.1
           | .fillRequest => zipRequest r.1
-        Json.mkObj [("stopped", Json.bool r.2), ("r", ofList (ofList vJson) res)]
+        let rs := match t with
+          | .fillCompute => zipCollect (·.compute) r.1
+          | .fillRequest => zipCollect (·.request) r.1
+        let maxlen := rs.foldl (fun m l => max m l.length) 0
+        let twice := match t with
+          | .fillCompute => zipTwice (·.compute) r.1
+          | .fillRequest => zipTwice (·.request) r.1
+        Json.mkObj [("stopped", Json.bool r.2), ("r", ofList (ofList vJson) res),
+          ("r2", ofList (ofList vJson) twice.2),
+          ("cols", ofList (fun i => ofOpt (ofList vJson) (colAt i rs)) (List.range (maxlen + 1)))]
     | _, _ => err "bad zip args"
   | some "init" =>
     match (arr? (getD j "objs")).bind (fun a => a.toList.mapM obj?), optInt (getD j "bufsize"),
@@ -248,7 +340,9 @@ def handle (j : Json) : Json :=
         | .error e => excJson e
         | .ok .fillCompute => Json.mkObj [("type", "fill_compute")]
         | .ok .fillRequest => Json.mkObj [("type", "fill_request")]
-      Json.mkObj [("split", sj), ("zip", zj)]
+      Json.mkObj [("split", sj), ("zip", zj),
+        ("is_fc_seq", ofList (fun o => Json.bool o.isFillComputeSeq) objs),
+        ("is_fr_seq", ofList (fun o => Json.bool o.isFillRequestSeq) objs)]
     | _, _, _ => err "bad init args"
   | _ => err "unknown op"
 
